@@ -32,6 +32,11 @@ func containsQuant(s string) bool {
 
 // script builds the SMT-LIB text of one obligation.
 func (vc *VC) script(o *Oblig, prelude string, axioms []string, wantModel bool) (string, bool) {
+	return vc.scriptMode(o, prelude, axioms, wantModel, false)
+}
+
+// scriptMode with stripped=true weakens every assumption by removing its quantified parts (see strip.go).
+func (vc *VC) scriptMode(o *Oblig, prelude string, axioms []string, wantModel bool, stripped bool) (string, bool) {
 	var b strings.Builder
 	body := &strings.Builder{}
 	for _, d := range vc.decls {
@@ -39,14 +44,23 @@ func (vc *VC) script(o *Oblig, prelude string, axioms []string, wantModel bool) 
 		body.WriteByte('\n')
 	}
 	_ = o.nDecl
-	for _, a := range axioms {
+	emit := func(a string) {
+		if stripped {
+			a = stripAssumption(a)
+			if a == "true" {
+				return
+			}
+		}
 		body.WriteString("(assert " + a + ")\n")
+	}
+	for _, a := range axioms {
+		emit(a)
 	}
 	for _, a := range vc.rootAssum {
-		body.WriteString("(assert " + a + ")\n")
+		emit(a)
 	}
 	for _, a := range vc.assum[:o.nAssum] {
-		body.WriteString("(assert " + a + ")\n")
+		emit(a)
 	}
 	body.WriteString("(assert " + o.Guard + ")\n")
 	body.WriteString("(assert (not " + o.Goal + "))\n")
@@ -100,7 +114,14 @@ func runSolver(cfg solverCfg, file string, timeout time.Duration) (status string
 	_ = cmd.Run()
 	ms = time.Since(t0).Milliseconds()
 	out = buf.String()
-	first := strings.TrimSpace(strings.SplitN(out, "\n", 2)[0])
+	first := ""
+	for _, l := range strings.Split(out, "\n") {
+		l = strings.TrimSpace(l)
+		if l == "unsat" || l == "sat" || l == "unknown" || l == "timeout" {
+			first = l
+			break
+		}
+	}
 	switch first {
 	case "unsat":
 		return "unsat", out, ms
@@ -190,6 +211,33 @@ func (pr *Prover) discharge(vc *VC, o *Oblig, prelude string, axioms []string) *
 		}
 		if sawSat {
 			break
+		}
+	}
+	if !sawSat && quant && o.Kind != "canary" && !containsQuant(o.Goal) {
+		// second strategy: the goal is quantifier-free; weaken the assumptions to their quantifier-free parts and
+		// use the solvers' complete procedures (strings: cvc5).  unsat here proves the original obligation.
+		s2, _ := vc.scriptMode(o, prelude, axioms, false, true)
+		f2 := file + ".qf.smt2"
+		if err := os.WriteFile(f2, []byte(s2), 0o644); err == nil {
+			cfgs2 := solversFor(false, pr.tier)
+			cfgs2 = []solverCfg{cfgs2[2], cfgs2[0]} // cvc5 first: it is the one that decides the string obligations
+			for _, cfg := range cfgs2 {
+				st, _, ms := runSolver(cfg, f2, pr.timeout)
+				v.Ms += ms
+				v.Tried = append(v.Tried, cfg.name+"/stripped:"+st)
+				if st == "unsat" {
+					v.Status = "proved"
+					v.Backend = cfg.name + "/stripped"
+					os.Remove(f2)
+					if !pr.keep {
+						os.Remove(file)
+					}
+					return v
+				}
+			}
+			if !pr.keep {
+				os.Remove(f2)
+			}
 		}
 	}
 	if sawSat {
